@@ -20,6 +20,7 @@ def tasks(tier):
         T.append(Task('PPolyND', 'generateTimeSequence', 1, cfg, options=OPT, label=base + ',whole'))
         for nc in (4,) if tier == 'quick' else (2, 4, 6):
             T.append(Task('PPolyND', 'getTrajectoryLength', 3, cfg, options=OPT, pins={'num_coeffs_': nc}, label=Task('a', 'b', cfg=cfg, pins={'num_coeffs_': nc}).label + ',length'))
+            T.append(Task('PPolyND', 'getTrajectoryLength', 1, cfg, options=OPT, pins={'num_coeffs_': nc}, label=Task('a', 'b', cfg=cfg, pins={'num_coeffs_': nc}).label + ',length_whole'))
         for ncf in (1, 3):
             T.append(Task('PPolyND', 'zero', 2, cfg, pins={'p_num_coefficients': ncf}))
         T.append(Task('PPolyND', 'constant', 2, cfg))
